@@ -424,6 +424,75 @@ func CheckC07(p *Pkg, e *Env, r *res.Result) {
 	if !ok && lastFail != nil {
 		r.Fail(*lastFail)
 	}
+	checkC07Responses(p, e, r)
+}
+
+// checkC07Responses is the "every response body a handler writes" half of C07: the
+// handler returns a type-directed value of each response type with a JSON body,
+// the bytes the generated code writes are validated against the schema the spec
+// documents for that status under application/json.
+func checkC07Responses(p *Pkg, e *Env, r *res.Result) {
+	silenceLogError(p)
+	in := NewInst(p)
+	in.NoParse = true
+	type target struct {
+		op   *Op
+		docs []DocResponse
+		info implInfo
+	}
+	var targets []target
+	for _, op := range p.Ops {
+		docs := docResponses(p, op)
+		infos, _ := linkImplementers(in, op, docs)
+		for _, info := range infos {
+			if info.Doc.Schema != nil {
+				targets = append(targets, target{op, docs, info})
+			}
+		}
+	}
+	if len(targets) == 0 {
+		return
+	}
+	n := 60 * len(targets)
+	if !e.Quick() {
+		n = 300 * len(targets)
+	}
+	var lastFail *res.Failure
+	prop := func(t *rapid.T) {
+		tg := targets[rapid.IntRange(0, len(targets)-1).Draw(t, "target")]
+		v, raw, g := genResponse(t, p, tg.info, tg.docs)
+		in.Respond = func(c *Call) reflect.Value { return v }
+		req := httptest.NewRequest(tg.op.Method, "http://h.example"+p.BasePath+concretePath(tg.op.Template), nil)
+		in.Reset()
+		rec, pan := in.Serve(req)
+		r.Evaluations++
+		if pan != "" {
+			return // C02 / C14 territory
+		}
+		clause, msg := checkWritten(p, tg.info, v, raw, rec)
+		if !strings.HasPrefix(clause, "body-") {
+			if clause == "" {
+				r.Label("validated:response-body")
+				if g.UnsetOptionals+g.Nulls+g.NonEmptyCollections > 0 {
+					r.NonTrivial("C07-resp", p.Index, tg.op.String(), tg.info.T.String(), shapeHash(rec.Body.Bytes()))
+				}
+			}
+			return
+		}
+		kind := "response-" + clause + "@" + bodySchemaClass(p.Doc, tg.info.Doc.Schema)
+		f := res.Failure{Property: "C07", Kind: kind, Clause: kind,
+			Detail: fmt.Sprintf("%s returns %s (documented response %s, schema %s): %s", tg.op, tg.info.T, tg.info.Doc.Status, schemaBrief(tg.info.Doc.Schema), msg),
+			Replay: p.SpecReplay(map[string]any{"operation.txt": tg.op.String(), "value.txt": fmt.Sprintf("%#v", v.Interface())})}
+		if IsKnown(p, e, r, &f) {
+			return
+		}
+		lastFail = &f
+		t.Fatalf("%s", f.Detail)
+	}
+	ok, _ := rt.Check("C07resp-"+p.Name, rt.Seed(e.Seed, rt.SeedStr("C07resp"), uint64(p.Index)), n, 10*time.Second, prop)
+	if !ok && lastFail != nil {
+		r.Fail(*lastFail)
+	}
 }
 
 func classifySchemaErr(e string) string {
